@@ -353,17 +353,12 @@ impl<const N: u32> PxE1<{ N }> {
     }
 
     pub const fn from_u64(a: u64) -> Self {
-        let ui_a = if a == 0x_8000_0000_0000_0000 {
-            0x_8000_0000
-        } else if N == 2 {
+        let ui_a = if N == 2 {
             if a > 0 {
                 0x_4000_0000
             } else {
                 0
             }
-        } else if a > 0x_8000_0000_0000_0000 {
-            //576460752303423488 -> wrong number need to change
-            0x_7FFF_FFFF & ((0x_8000_0000_u64 >> (N - 1)) as u32) // 1152921504606847000
         } else {
             convert_u64_to_px1bits::<{ N }>(a)
         };
